@@ -110,8 +110,9 @@ func getCharSetFromCategoryString(negateSet bool, negateCat bool, cats ...string
 		c.categories[i] = Category{Cat: cat, Negate: negateCat}
 	}
 	return func() *CharSet {
-		//make a copy each time
-		local := c
+		//make a deep copy each time: the slices must not be shared with
+		//the prototype, callers merge and canonicalize them in place
+		local := c.Copy()
 		//return that address
 		return &local
 	}
@@ -165,7 +166,7 @@ func getCharSetFromOldString(setText []rune, negate bool) func() *CharSet {
 	}
 
 	return func() *CharSet {
-		local := c
+		local := c.Copy()
 		return &local
 	}
 }
